@@ -158,24 +158,27 @@ Section Sound.
   Hypothesis Hexact : tabs_null_exact G T (cc_dfuel C) = true.
 
   (** what a certified function does on a word of its nonterminal *)
+  (** the current token of an input: its head, or Eof at the end of input *)
+  Definition hdT (tail : list TokenKind) : TokenKind := match tail with [] => T_Eof | t :: _ => t end.
   Definition Parses (M f : nat) (u : list TokenKind) : Prop :=
-    forall k' rest' e' en, In k' (cc_fol C M) ->
-      exists m, texec m p (ECall f None) en (mk_ts (u ++ k' :: rest') e') = TVal (VB true) en (mk_ts (k' :: rest') e').
+    forall tail' e' en, In (hdT tail') (cc_fol C M) ->
+      exists m, texec m p (ECall f None) en (mk_ts (u ++ tail') e') = TVal (VB true) en (mk_ts tail' e').
 
   Section Fn.
   Variable N : nat.                       (* the nonterminal of the function under consideration *)
-  Variable k : TokenKind.                 (* the follower of this invocation *)
-  Variable rest : list TokenKind.
+  Variable tail : list TokenKind.         (* what follows the word of this invocation (possibly the end of input) *)
+  Variable k : TokenKind.                 (* the follower: the first token of [tail], or Eof *)
+  Hypothesis Hhd : hdT tail = k.
   Variable e0 : nat.
   Variable len0 : nat.                    (* length of the word of this invocation *)
   Hypothesis Hk : In k (cc_fol C N).
   Hypothesis HIH : forall M f u, cc_mode C f = Some M -> fn_body p f <> None -> rmatch G (RSym (DNT M)) u ->
     (List.length u < len0 \/ (List.length u <= len0 /\ cc_rank C M < cc_rank C N)) -> Parses M f u.
 
-  Definition tstate (w : list TokenKind) : tst := mk_ts (w ++ k :: rest) e0.
+  Definition tstate (w : list TokenKind) : tst := mk_ts (w ++ tail) e0.
   Definition hd_tok (w : list TokenKind) : TokenKind := match w with t :: _ => t | [] => k end.
   Lemma tcur_tstate w : tcur (tstate w) = hd_tok w.
-  Proof. destruct w; reflexivity. Qed.
+  Proof. destruct w; [|reflexivity]. cbn [hd_tok]. rewrite <- Hhd. unfold tstate, tcur, mk_ts. cbn [app tks]. now destruct tail. Qed.
 
   Definition conc (s : cst) (w : list TokenKind) : Prop :=
     (exists r, In r (s_r s) /\ rmatch G r w) /\
@@ -447,9 +450,8 @@ Section Sound.
   Qed.
 
   (** * Calls of certified functions *)
-  Definition tl_tok (v : list TokenKind) : list TokenKind := match v with [] => rest | _ :: v' => v' ++ k :: rest end.
-  Lemma hd_tl v : v ++ k :: rest = hd_tok v :: tl_tok v.
-  Proof. destruct v; reflexivity. Qed.
+  Lemma hdT_app v : hdT (v ++ tail) = hd_tok v.
+  Proof. destruct v; [exact Hhd|reflexivity]. Qed.
 
   Lemma call_nt_sound M f s v s' w : cc_mode C f = Some M -> fn_body p f <> None ->
     call_nt G C N M s = COk (v, s') -> conc s w ->
@@ -496,11 +498,11 @@ Section Sound.
     { destruct (s_mv s) eqn:Emv.
       - left. specialize (B2 eq_refl). lia.
       - right. split; [lia|]. cbn [negb andb] in C4. apply negb_false_iff in C4. now apply Nat.ltb_lt in C4. }
-    destruct (HIH M f u Hmode Hbody Hu Hmeas (hd_tok v0) (tl_tok v0) e0 (s_env s) Hfol) as (m & Hrun).
-    exists m. unfold tstate. rewrite <- app_assoc, hd_tl. rewrite Hrun.
+    destruct (HIH M f u Hmode Hbody Hu Hmeas (v0 ++ tail) e0 (s_env s) ltac:(rewrite hdT_app; exact Hfol)) as (m & Hrun).
+    exists m. unfold tstate. rewrite <- app_assoc. rewrite Hrun.
     eapply okres_val; [now left|]. apply post_intro.
     - reflexivity.
-    - unfold tstate. now rewrite hd_tl.
+    - reflexivity.
     - split; [exists r'; split; auto|]. cbn [s_cur].
       destruct (s_cur s) as [|[|c0 cl] fin] eqn:Ecur; cbn; auto.
       destruct Hcur as [(t & w' & _ & [])|[E Hf]]. apply app_eq_nil in E as [_ ->]. right. split; auto.
@@ -848,7 +850,7 @@ Section Sound.
         (List.length u < List.length w \/ (List.length u <= List.length w /\ cc_rank C M' < cc_rank C M)) -> Parses M' f' u) ->
     Parses M f w.
   Proof.
-    intros Hmode Hbody Hd HIH k rest e en Hk.
+    intros Hmode Hbody Hd HIH tail e en Hk.
     assert (Hf : f < List.length (fns p)) by (apply nth_error_Some; exact Hbody).
     pose proof (Hcheck f Hf) as Hc. unfold check_cfn in Hc. rewrite Hmode in Hc.
     destruct (fn_body p f) as [body|] eqn:Ef; [|contradiction].
@@ -856,12 +858,12 @@ Section Sound.
     destruct (cexec G p C M cfuel body (init_cst rhs)) as [o|m0] eqn:Ex; [|discriminate Hc].
     destruct (k_brk o) eqn:Ebrk; [|discriminate Hc].
     destruct (forallb exit_ok (k_norm o ++ k_ret o)) eqn:Eexit; [|discriminate Hc]. clear Hc.
-    assert (Hc0 : conc k (init_cst rhs) w).
+    assert (Hc0 : conc (hdT tail) (init_cst rhs) w).
     { split; [exists rhs; split; [now left|exact Hr]|exact I]. }
-    destruct (cexec_sound M k rest e (List.length w) Hk HIH cfuel body _ _ w Ex Hc0 (le_n _) ltac:(cbn; discriminate)) as (m & R).
+    destruct (cexec_sound M tail (hdT tail) eq_refl e (List.length w) Hk HIH cfuel body _ _ w Ex Hc0 (le_n _) ltac:(cbn; discriminate)) as (m & R).
     change (s_env (init_cst rhs)) with (@nil val) in R.
     exists (S m). cbn [texec]. rewrite Ef.
-    assert (Exit : forall v s' w', In (v, s') (k_norm o ++ k_ret o) -> conc k s' w' -> v = VB true /\ w' = []).
+    assert (Exit : forall v s' w', In (v, s') (k_norm o ++ k_ret o) -> conc (hdT tail) s' w' -> v = VB true /\ w' = []).
     { intros v s' w' Hin ((r & Hr' & Hm') & Hcur). rewrite forallb_forall in Eexit. specialize (Eexit _ Hin).
       unfold exit_ok in Eexit. cbn [fst snd] in Eexit. apply andb_true_iff in Eexit as [E1 E2].
       split; [destruct v as [[|]|]; try discriminate E1; reflexivity|].
@@ -869,8 +871,8 @@ Section Sound.
       - rewrite forallb_forall in E2. specialize (E2 r Hr'). unfold is_eps in E2. apply rx_eqb_eq in E2. subst r. now inversion Hm'.
       - destruct Hcur as [(t & w1 & _ & [])|[E _]]. exact E.
       - rewrite forallb_forall in E2. specialize (E2 r Hr'). unfold is_eps in E2. apply rx_eqb_eq in E2. subst r. now inversion Hm'. }
-    fold (tstate k rest e w).
-    destruct (texec m p body [] (tstate k rest e w)) as [v cen1 ts1|cen1 ts1|v cen1 ts1| |]; cbn [okres] in R; try contradiction.
+    change (mk_ts (w ++ tail) e) with (tstate tail e w).
+    destruct (texec m p body [] (tstate tail e w)) as [v cen1 ts1|cen1 ts1|v cen1 ts1| |]; cbn [okres] in R; try contradiction.
     - destruct R as (s' & w' & Hin & (_ & Pt & Pc & _)).
       destruct (Exit v s' w' ltac:(apply in_or_app; now left) Pc) as (-> & ->). subst ts1. reflexivity.
     - destruct R as (s' & w' & Hin & _). rewrite Ebrk in Hin. contradiction.
@@ -896,16 +898,16 @@ End Sound.
 (** the checker is sound *)
 Theorem check_complete_sound G p C fuel : check_complete G p C fuel = true ->
   forall M f w, cc_mode C f = Some M -> f < List.length (fns p) -> derives G M w ->
-  forall k rest e en, In k (cc_fol C M) ->
-    exists m, texec m p (ECall f None) en (mk_ts (w ++ k :: rest) e) = TVal (VB true) en (mk_ts (k :: rest) e).
+  forall tail e en, In (hdT tail) (cc_fol C M) ->
+    exists m, texec m p (ECall f None) en (mk_ts (w ++ tail) e) = TVal (VB true) en (mk_ts tail e).
 Proof.
-  unfold check_complete. intros H M f w Hmode Hf Hd k rest e en Hk.
+  unfold check_complete. intros H M f w Hmode Hf Hd tail e en Hk.
   apply andb_true_iff in H as [H H3]. apply andb_true_iff in H as [H1 H2].
   rewrite forallb_forall in H3.
   assert (Hcheck : forall f0, f0 < List.length (fns p) -> cres_ok (check_cfn G p C fuel f0) = true).
   { intros f0 Hf0. apply H3. apply in_seq. lia. }
   assert (Hbody : fn_body p f <> None) by (apply nth_error_Some; exact Hf).
-  exact (complete_sound G p C H1 H2 fuel Hcheck M f w Hmode Hbody Hd k rest e en Hk).
+  exact (complete_sound G p C H1 H2 fuel Hcheck M f w Hmode Hbody Hd tail e en Hk).
 Qed.
 
 (** emptying rules only removes words *)
@@ -958,6 +960,78 @@ Proof.
   - assert (HnS : In n S) by (apply Hs; now left).
     eapply MNT; [rewrite (blank_nth bl G n r Hn), (Hdis n HnS); reflexivity|].
     apply IH. intros m Hm. unfold nts_closed in Hcl. rewrite forallb_forall in Hcl. specialize (Hcl n HnS). rewrite Hn in Hcl.
+    rewrite forallb_forall in Hcl. specialize (Hcl m Hm). apply existsb_exists in Hcl as (y & Hy & E). apply Nat.eqb_eq in E. now subst.
+  - constructor; [apply IHa|apply IHb]; intros m Hm; apply Hs; cbn; apply in_or_app; auto.
+  - apply MAltL. apply IH. intros m Hm. apply Hs. cbn. apply in_or_app. auto.
+  - apply MAltR. apply IH. intros m Hm. apply Hs. cbn. apply in_or_app. auto.
+  - constructor.
+  - constructor; [apply IHu|apply IHv]; intros m Hm; apply Hs; auto.
+Qed.
+
+(** * Sub-grammars *)
+Lemma rx_incl_sound G : forall fuel a b, rx_incl G fuel a b = true -> forall w, rmatch G a w -> rmatch G b w.
+Proof.
+  induction fuel as [|n IH]; intros a b H w Hm; cbn [rx_incl] in H; [discriminate H|].
+  destruct (rx_eqb a b) eqn:Eab; [apply rx_eqb_eq in Eab; now subst|].
+  assert (Right : (match b with
+                   | RAlt b1 b2 => rx_incl G n a b1 || rx_incl G n a b2
+                   | RSym (DNT m) => match nth_error G m with Some rhs => rx_incl G n a rhs | None => false end
+                   | RSeq b1 b2 => (match a with RSeq a1 a2 => rx_incl G n a1 b1 && rx_incl G n a2 b2 | _ => false end) ||
+                                   (rx_incl G n a b1 && rnull_lo G n b2)
+                   | RStar b1 => match a with RStar a1 => rx_incl G n a1 b1 | REps => true | _ => false end
+                   | RSym (DTok ks2) => match a with RSym (DTok ks1) => kset_sub ks1 ks2 | _ => false end
+                   | _ => false
+                   end) = true -> rmatch G b w).
+  { clear H. intros H. destruct b as [| |[ks2|m]|b1 b2|b1 b2|b1]; try discriminate H.
+    - destruct a as [| |[ks1|m1]|a1 a2|a1 a2|a1]; try discriminate H.
+      inversion Hm; subst. constructor. eapply kset_sub_In; eauto.
+    - destruct (nth_error G m) as [rhs|] eqn:E; [|discriminate H]. eapply MNT; eauto.
+    - apply orb_true_iff in H as [H|H].
+      + destruct a as [| |s|a1 a2|a1 a2|a1]; try discriminate H. apply andb_true_iff in H as [H1 H2].
+        inversion Hm; subst. constructor; eauto.
+      + apply andb_true_iff in H as [H1 H2]. rewrite <- (app_nil_r w). constructor; eauto.
+        eapply rnull_lo_sound; eauto.
+    - apply orb_true_iff in H as [H|H]; [apply MAltL|apply MAltR]; eauto.
+    - destruct a as [| |s|a1 a2|a1 a2|a1]; try discriminate H.
+      + inversion Hm. constructor.
+      + (* star <= star *)
+        clear Eab. remember (RStar a1) as ra eqn:Er. induction Hm as [| | | | | |a0|a0 u v Hu _ Hv IHv]; try discriminate Er.
+        * constructor.
+        * inversion Er. subst a0. constructor; eauto. }
+  destruct a as [| |s|a1 a2|a1 a2|a1]; try (apply Right; exact H).
+  - inversion Hm.
+  - apply andb_true_iff in H as [H1 H2]. inversion Hm; subst; eauto.
+Qed.
+
+Lemma sub_grammar_sound G G2 phi fuel : sub_grammar_ok G G2 phi fuel = true ->
+  forall r w, rmatch G2 r w -> rmatch G (rx_map phi r) w.
+Proof.
+  intros Hok. induction 1 as [|ks k Hk|n r w Hn Hr IH| | | | |]; cbn [rx_map]; try (constructor; auto; fail).
+  unfold sub_grammar_ok in Hok. rewrite forallb_forall in Hok.
+  assert (Hlt : n < List.length G2) by (apply nth_error_Some; congruence).
+  specialize (Hok n ltac:(apply in_seq; lia)). rewrite Hn in Hok.
+  pose proof (rx_incl_sound G fuel _ _ Hok w IH) as Hm.
+  destruct (nth_error G (phi n)) as [r0|] eqn:E; [eapply MNT; eauto|inversion Hm].
+Qed.
+
+(** nonterminals whose rules (transitively) are the same in both grammars keep all their words *)
+Definition rules_agree (G G2 : grammar) (S : list nat) : bool :=
+  forallb (fun n => match nth_error G n, nth_error G2 n with
+                    | Some a, Some b => rx_eqb a b
+                    | None, None => true
+                    | _, _ => false
+                    end) S.
+Lemma agree_keep G G2 S : nts_closed G S = true -> rules_agree G G2 S = true ->
+  forall r w, rmatch G r w -> (forall m, In m (rx_nts r) -> In m S) -> rmatch G2 r w.
+Proof.
+  intros Hcl Hag. induction 1 as [|ks k Hk|n r w Hn Hr IH|a b u v Ha IHa Hb IHb|a b w Ha IH|a b w Hb IH|a|a u v Hu IHu Hv IHv]; intros Hs.
+  - constructor.
+  - now constructor.
+  - assert (HnS : In n S) by (apply Hs; now left).
+    unfold rules_agree in Hag. rewrite forallb_forall in Hag. specialize (Hag n HnS). rewrite Hn in Hag.
+    destruct (nth_error G2 n) as [r2|] eqn:E2; [|discriminate Hag]. apply rx_eqb_eq in Hag. subst r2.
+    eapply MNT; [exact E2|]. apply IH. intros m Hm.
+    unfold nts_closed in Hcl. rewrite forallb_forall in Hcl. specialize (Hcl n HnS). rewrite Hn in Hcl.
     rewrite forallb_forall in Hcl. specialize (Hcl m Hm). apply existsb_exists in Hcl as (y & Hy & E). apply Nat.eqb_eq in E. now subst.
   - constructor; [apply IHa|apply IHb]; intros m Hm; apply Hs; cbn; apply in_or_app; auto.
   - apply MAltL. apply IH. intros m Hm. apply Hs. cbn. apply in_or_app. auto.
